@@ -777,7 +777,7 @@ def correspond(ctx: C.Ctx, cov: C.Coverage, main: str = "C10") -> List[C.Disagre
                 "and 7 Content-Type variants, limit/cursor/level values, plus all histories of length <= 3 over 8 requests on two ids; after every "
                 "request status, Location, canonical payload and the complete store snapshot are compared with the model. non-trivial = the "
                 "history contains a successful write followed by a read; distinct = by (method, path length, status) sequence")
-    hs = gen_histories(ctx, rng, ctx.budget(250, 2200), (4, 14), 0.15)
+    hs = gen_histories(ctx, rng, ctx.budget(200, 2200), (4, 14), 0.15)
     ex = exhaustive_short(rng) if ctx.tier == "thorough" else [h for h in exhaustive_short(rng) if len(h) <= 2]
     dis: List[C.Disagreement] = []
     lines, impl, index, kept = run_histories(hs + ex, False, cov, "dict")
@@ -1195,7 +1195,7 @@ def oracle(ctx: C.Ctx, cov: C.Coverage) -> List[C.Failing]:
     rng = random.Random(f"C10-oracle:{ctx.seed}")
     out: List[C.Failing] = []
     sigs = set()
-    n = ctx.budget(120, 900)
+    n = ctx.budget(100, 900)
     for hi in range(n):
         ops = gen_semantic_ops(rng, rng.randint(3, 10), True)
         fb = hi % 5 == 4
